@@ -340,6 +340,7 @@ func runL2Script(script []c18Op) (trace string, maxLeaving int, oracleUpdates in
 			branchL2(l2, func(b *henv.L2) {
 				seq, _ := b.K.GetNextL1Sequence(b.Ctx)
 				b.Deliver(opchildtypes.NewMsgFinalizeTokenDeposit(exec.Str, users[0].Str, "bad-recipient", coinOf(denoms[op.A%2], 5), seq, 7, "unoise", nil))
+				b.Deliver(opchildtypes.NewMsgFinalizeTokenDeposit(exec.Str, users[0].Str, users[op.A%4].Str, coinOf(denoms[op.A%2], 5), seq+1, 7, "unoise", []byte{0x0a, 0x01, 0x00})) // ... and one that carries hook data
 				b.Q.BaseDenom(b.Ctx, &opchildtypes.QueryBaseDenomRequest{Denom: denoms[op.A%2]})
 				b.Deliver(opchildtypes.NewMsgInitiateTokenWithdrawal(users[op.A%4].Str, "noise", coinOf(denoms[op.A%2], 1)))
 				m, _ := opchildtypes.NewMsgAddValidator("noise", b.Authority, ops[op.B%6].String(), key(op.A%6))
@@ -391,6 +392,8 @@ func runL2Script(script []c18Op) (trace string, maxLeaving int, oracleUpdates in
 			p, _ := l2.K.GetParams(l2.Ctx)
 			p.BridgeExecutors = []string{exec.Str, users[op.A%4].Str, users[(op.A+1)%4].Str, exec.Str, users[(op.A+2)%4].Str, users[op.A%4].Str}
 			p.FeeWhitelist = []string{users[op.B%4].Str, users[(op.B+1)%4].Str, users[op.B%4].Str, users[(op.B+3)%4].Str}
+			// hooks are switched off (allowance 0) by one parameter update in three and on again by the others
+			p.HookMaxGas = []uint64{opchildtypes.DefaultHookMaxGas, 0, 300_000}[op.C%3]
 			emit(op, l2.Deliver(opchildtypes.NewMsgUpdateParams(l2.Authority, &p)))
 			q, _ := l2.K.GetParams(l2.Ctx)
 			fmt.Fprintf(&sb, "PARAMS executors=%v whitelist=%v\n", q.BridgeExecutors, q.FeeWhitelist)
